@@ -16,6 +16,12 @@
    takes it.  `dev` records the deviations used since the last Reset; the property invariants are
    claimed for deviation-free runs.
 
+   C15 (independence): several directory objects can be live at once -- the original, directories
+   loaded from its root node (NewDirectoryFromNode(GetNode())), root nodes the caller still holds.
+   Each is its own map.  The variables entries..bk describe the object the calls go to ("focused");
+   `parked` holds the other live objects, `nodes` the retained root nodes.  A call changes the
+   focused object only (CallFrame, Independence); Fork / Focus create and select objects.
+
    The bookkeeping fields of the implementation (estimatedSize, totalLinks, sizeChange) are kept
    in `bk`.  They are used only in guards of deviations; the *Core actions do not constrain bk'
    (model checking adds BkRule = how the code maintains them, trace validation copies the logged
@@ -41,9 +47,14 @@ VARIABLES
   bk,       \* implementation bookkeeping [est, tl, sc]
   trie,     \* [s : set of shard paths (incl. root <<>>), v : key -> path of the shard holding it]
   err,      \* result of the last call: "" | "notExist" | "maxLinks"
-  dev       \* deviations used in this run
+  dev,      \* deviations used in this run
+  parked,   \* the OTHER live directory objects: sequence of [entries, mode, set, bk, trie]
+  nodes     \* root nodes handed out earlier and still held by the caller: sequence of
+            \* [owner, e, e0]: owner = Me (the focused object returned it from GetNode), k >= 1
+            \* (parked[k] did), Nobody (decoded from the store, or its directory is gone);
+            \* e = the entries it shows, e0 = the entries it showed when it was handed out
 
-vars == <<w, cfg, entries, mode, set, bk, trie, err, dev>>
+vars == <<w, cfg, entries, mode, set, bk, trie, err, dev, parked, nodes>>
 
 NoT     == "-"
 Names   == DOMAIN w.len
@@ -220,6 +231,41 @@ RemoveCore(n) ==
 \* a new directory object from the root node; the caller re-applies the settings (as MFS does)
 ReloadCore == Out(entries, mode, CfgSettings, trie, "", {})
 
+(* ---- C15: independence of directory objects -------------------------------------- *)
+Me        == 0
+Nobody    == -1
+MaxParked == 2                   \* at most 3 live directory objects, 2 retained nodes
+ThisObj   == [entries |-> entries, mode |-> mode, set |-> set, bk |-> bk, trie |-> trie]
+\* A call on the focused object changes no other directory object.  A retained node is a value of
+\* its own as well: it can change only in lock-step with the object that returned it from GetNode
+\* ("the root of this directory": the interface leaves open whether that is the live root or a
+\* snapshot, BasicDirectory and HAMTDirectory differ) -- never through any other object.
+Own == {i \in DOMAIN nodes : nodes[i].owner = Me}
+NodesAfter(F) == [i \in DOMAIN nodes |-> IF i \in F THEN [nodes[i] EXCEPT !.e = entries'] ELSE nodes[i]]
+CallFrame(F)  == F \subseteq Own /\ parked' = parked /\ nodes' = NodesAfter(F)
+ReOwn(f(_))   == [i \in DOMAIN nodes |-> [nodes[i] EXCEPT !.owner = f(nodes[i].owner)]]
+\* Reload replaces the focused object by the one loaded from its root; the old object is dropped
+ReloadFrame == /\ parked' = parked
+               /\ LET f(o) == IF o = Me THEN Nobody ELSE o IN nodes' = ReOwn(f)
+\* Fork: load a second directory from the root node of the focused one and keep BOTH: the old
+\* object is parked, the calls go to the copy, the caller keeps the node it loaded from
+\* (via = "node": the very node GetNode returned; "store": the node decoded from the block store)
+ForkFrame(via) ==
+  LET k == Len(parked) + 1
+      f(o) == IF o = Me THEN k ELSE o
+  IN /\ k <= MaxParked
+     /\ parked' = Append(parked, ThisObj)
+     /\ nodes' = Append(ReOwn(f), [owner |-> IF via = "node" THEN k ELSE Nobody, e |-> entries, e0 |-> entries])
+\* Focus: the next calls go to parked[k]; it is found exactly as it was left (bk' left open as in
+\* the other *Core actions)
+FocusCore(k) ==
+  LET f(o) == IF o = Me THEN k ELSE IF o = k THEN Me ELSE o
+  IN /\ k \in DOMAIN parked
+     /\ entries' = parked[k].entries /\ mode' = parked[k].mode /\ set' = parked[k].set
+     /\ trie' = parked[k].trie /\ err' = "" /\ dev' = dev /\ UNCHANGED <<w, cfg>>
+     /\ parked' = [parked EXCEPT ![k] = ThisObj]
+     /\ nodes' = ReOwn(f)
+
 (* ---- C15 alone: the same map / trie steps with the representation left open ---- *)
 MapAdd(n, t, m2) ==
   \/ /\ cfg.kind = "basic" /\ BasicAdd(n, t)
@@ -265,21 +311,28 @@ Start(ww, cc) == [entries |-> [n \in DOMAIN ww.len |-> NoT],
 InitWith(ww, cc) ==
         /\ w = ww /\ cfg = cc /\ entries = Start(ww, cc).entries /\ mode = Start(ww, cc).mode
         /\ set = Start(ww, cc).set /\ bk = Start(ww, cc).bk
-        /\ trie = EmptyTrie /\ err = "" /\ dev = {}
+        /\ trie = EmptyTrie /\ err = "" /\ dev = {} /\ parked = <<>> /\ nodes = <<>>
 \* a fresh directory of configuration cc in world ww (new run)
 ResetTo(ww, cc) ==
         /\ w' = ww /\ cfg' = cc /\ entries' = Start(ww, cc).entries /\ mode' = Start(ww, cc).mode
         /\ set' = Start(ww, cc).set /\ bk' = Start(ww, cc).bk
-        /\ trie' = EmptyTrie /\ err' = "" /\ dev' = {}
+        /\ trie' = EmptyTrie /\ err' = "" /\ dev' = {} /\ parked' = <<>> /\ nodes' = <<>>
 Init == \E ww \in Worlds : \E cc \in CfgSet(ww) : InitWith(ww, cc)
 
-Add(n, t) == AddCore(n, t) /\ BkRule(n, t, FALSE)
-Remove(n) == RemoveCore(n) /\ BkRule(n, NoT, FALSE)
-Reload    == ReloadCore /\ BkRule(NoT, NoT, TRUE)
+AnyFrame  == \E F \in SUBSET Own : CallFrame(F)
+Add(n, t) == AddCore(n, t) /\ BkRule(n, t, FALSE) /\ AnyFrame
+Remove(n) == RemoveCore(n) /\ BkRule(n, NoT, FALSE) /\ AnyFrame
+Reload    == ReloadCore /\ BkRule(NoT, NoT, TRUE) /\ ReloadFrame
 
 Next == \/ \E n \in Names : (\E t \in Targets : Add(n, t)) \/ Remove(n)
         \/ Reload
 Spec == Init /\ [][Next]_vars
+
+\* several live objects (C15 independence)
+Fork(via) == ReloadCore /\ BkRule(NoT, NoT, TRUE) /\ ForkFrame(via)
+Focus(k)  == FocusCore(k) /\ bk' = parked[k].bk
+NextObjs  == Next \/ (\E via \in {"node", "store"} : Fork(via)) \/ (\E k \in DOMAIN parked : Focus(k))
+SpecObjs  == Init /\ [][NextObjs]_vars
 
 (* ------------------------------------------------------------------ invariants ------- *)
 TypeOK == /\ entries \in [Names -> Targets \cup {NoT}] /\ mode \in {"basic", "hamt"}
@@ -304,8 +357,26 @@ CidFunctionOfEntries == dev = {} => RootOf = CanonRoot
 \* pure basic directories respect MaxLinks
 BasicLimit == cfg.kind = "basic" /\ cfg.maxLinks > 0 => Count(entries) <= cfg.maxLinks
 
+\* C15 independence: every live object is a well-formed directory of its own, and a step leaves
+\* every object it is not addressed to exactly as it was (still parked, or focused now), and
+\* changes a retained node only together with the object that handed it out
+ObjsOK == /\ Len(parked) <= MaxParked /\ Len(nodes) <= MaxParked
+          /\ \A k \in DOMAIN parked :
+                /\ parked[k].entries \in [Names -> Targets \cup {NoT}] /\ parked[k].mode \in {"basic", "hamt"}
+                /\ parked[k].trie = (IF parked[k].mode = "hamt" THEN CanonTrie(Keys(parked[k].entries)) ELSE EmptyTrie)
+          /\ \A i \in DOMAIN nodes : nodes[i].owner \in {Me, Nobody} \cup DOMAIN parked
+Independent ==
+  /\ \A k \in DOMAIN parked :
+        \/ k \in DOMAIN parked' /\ parked'[k] = parked[k]
+        \/ /\ entries' = parked[k].entries /\ mode' = parked[k].mode /\ trie' = parked[k].trie
+           /\ set' = parked[k].set /\ bk' = parked[k].bk
+  /\ \A i \in DOMAIN nodes :
+        /\ i \in DOMAIN nodes' /\ nodes'[i].e0 = nodes[i].e0
+        /\ nodes'[i].e # nodes[i].e => nodes[i].owner = Me /\ nodes'[i].e = entries'
+Independence == [][Independent]_vars
+
 \* bk is read only by deviation guards: with Devs = {} it cannot influence behaviour
-ViewNoBk == <<w, cfg, entries, mode, set, trie, err, dev>>
+ViewNoBk == <<w, cfg, entries, mode, set, trie, err, dev, parked, nodes>>
 
 (* ------------------------------------------------------------------ MC instances ----- *)
 \* abstract world for model checking: 4 names of sizes 1..3, two targets, hash digits with every
@@ -319,6 +390,19 @@ MCCfgs(ww) == {c \in [kind : Kinds, est : Ests, gthr : {0, 9, 1000}, thr : {0, 8
                       width : {8}, stat : {"none"}, cb : {"v0"}] :
                  /\ c.est # "disabled" => c.gthr > 0
                  /\ c.kind # "dynamic" => c.thr = 0 /\ c.gthr = 1000 /\ c.est = "links"}
+\* C15 independence: a 2-name world, one configuration of every kind (+ a basic one with a limit)
+MCWorldsObj == {[len |-> [a |-> 1, b |-> 2], h |-> [a |-> <<0, 0, 0, 0>>, b |-> <<0, 1, 0, 0>>],
+                 cidLen |-> [T1 |-> 2, T2 |-> 4], tsize |-> [T1 |-> 1, T2 |-> 200]]}
+MCCfgsObj(ww) ==
+  {c \in MCCfgs(ww) : /\ c.thr = 0
+                      /\ c.est = "links"
+                      /\ c.gthr = (IF c.kind = "dynamic" THEN 9 ELSE 1000)
+                      /\ (c.maxLinks = 2 => c.kind = "basic")}
+ObjsBound == Len(parked) <= 1
+\* with Devs = {} the bookkeeping and the last result are never read; e0 is constant per node
+ViewObjs == <<w, cfg, entries, mode, set, trie, dev,
+              [k \in DOMAIN parked |-> <<parked[k].entries, parked[k].mode, parked[k].set, parked[k].trie>>],
+              [i \in DOMAIN nodes |-> <<nodes[i].owner, nodes[i].e>>]>>
 \* the as-built model (all deviations enabled): dynamic directories, thresholds at the boundary
 MCCfgsDyn(ww) == {c \in MCCfgs(ww) : c.kind = "dynamic" /\ c.gthr \in {0, 9}}
 \* C15 alone: all kinds, one threshold, no per-directory value
